@@ -6,7 +6,7 @@
 From Coq Require Import NArith ZArith Bool List.
 From CppUVerif Require Import lib.CMem lib.CMemFacts gen.Gen_LoopC13.   (* before the model: its Ok/Oob/NoFuel are the unqualified ones below *)
 From CppUVerif Require Import lib.Str lib.CSem gen.Gen_LeafC13 C13_Text C13_Model C13_Proofs C13_Replace C13_Printable C13_Concat C13_Alloc C13_Atoi C13_Main C13_LeafTie
-                              C13_Pool C13_PoolProofs C13_Life C13_LifeProofs C13_LifeProofs2 C13_LifeSplit C13_Loose C13_Chain C13_LifeMain.
+                              C13_Pool C13_PoolProofs C13_Life C13_LifeProofs C13_LifeProofs2 C13_LifeSplit C13_Loose C13_Chain C13_Coll C13_LifeMain.
 From CppUVerif Require C12_Safe.
 From CppUVerif Require Import C13_SrcTie C13_SrcTie2 C13_SrcTie3 C13_SrcTie4 C13_SrcSpec C13_SrcSpec2 C13_SrcSpec3 C13_SrcSpec4.
 Import ListNotations.
@@ -341,6 +341,80 @@ Print Assumptions C13_scn_safe.
 Theorem C13_scn_embeds_operations : forall o, run_scn (SOp o) = run o /\ valid_scn (SOp o) = valid o /\ forall ob, spec_scn (SOp o) ob = spec o ob.
 Proof. exact scn_embeds. Qed.
 Print Assumptions C13_scn_embeds_operations.
+
+(* ---- split() with a delimiter of EVERY length, and the SimpleStringCollection as an object with a history (C13_Coll.v) ---- *)
+(* the textbook split t_split_str d s (C13_Life.v): walking s, a token ends with the byte at which an occurrence of d STARTS
+   (occurrences may overlap; the empty delimiter occurs at every byte); what is left behind the last token is the last token unless
+   s ends with d.  It has as many tokens as count() finds occurrences, one more unless the text ends with the delimiter ... *)
+Theorem C13_split_textbook_token_count : forall d s, length (t_split_str d s) = (t_count s d + (if t_ends_with s d then 0 else 1))%nat.
+Proof. exact t_split_str_length. Qed.
+Print Assumptions C13_split_textbook_token_count.
+
+(* ... the tokens and the rest put together again are the text: no byte is invented, none appears twice ... *)
+Theorem C13_split_textbook_concat : forall d s, concat (fst (t_cuts d s)) ++ snd (t_cuts d s) = s.
+Proof. exact t_cuts_concat. Qed.
+Print Assumptions C13_split_textbook_concat.
+
+(* ... when the text ends with a non-empty delimiter x :: d the tokens are the text WITHOUT its last |d| bytes: nothing is lost for a
+   one-byte delimiter; for a longer one the delimiter's tail belongs to no token ("a--" at "--" is the one token "a-") ... *)
+Theorem C13_split_textbook_delimiter_tail : forall x d s, t_ends_with s (x :: d) = true ->
+  t_split_str (x :: d) s = fst (t_cuts (x :: d) s) /\ concat (t_split_str (x :: d) s) ++ d = s.
+Proof. exact t_split_str_tail. Qed.
+Print Assumptions C13_split_textbook_delimiter_tail.
+
+(* ... and for a one-byte delimiter it is the definition of C13_split_spec / C13_sequence_spec *)
+Theorem C13_split_textbook_single_byte : forall c s, t_split_str [c] s = t_split_all c s.
+Proof. exact t_split_str_single. Qed.
+Print Assumptions C13_split_textbook_single_byte.
+
+(* split(): EVERY text, EVERY delimiter (empty, one byte, longer, overlapping itself, longer than the text, equal to it), any slack
+   behind the two terminators, the collection in ANY earlier state: Ok (memory-safe, terminating), afterwards the collection's array is
+   exactly the C strings of the textbook tokens and size_ is their number -- nothing of what the collection held before survives *)
+Theorem C13_split_any_delimiter_spec : forall c a ra d rd, NN a -> NN d ->
+  exists c', c_split c (a ++ 0 :: ra) (d ++ 0 :: rd) = Ok c'
+             /\ c_arr c' = map cs (t_split_str d a) /\ c_size c' = length (t_split_str d a) /\ c_empty c' = c_empty c.
+Proof. exact c_split_ok. Qed.
+Print Assumptions C13_split_any_delimiter_spec.
+
+(* one step (split / allocate / col[i] = s / the observers) from ANY state satisfying the invariant CI (size_ = length of the array,
+   the array = the C strings of the textbook list): Ok, and the invariant again for the textbook list after the step *)
+Theorem C13_collection_step_spec : forall c items q, CI c items -> valid_cop q = true ->
+  exists c', kstep c q = Ok c' /\ CI c' (t_kstep items q).
+Proof. exact kstep_ok. Qed.
+Print Assumptions C13_collection_step_spec.
+
+(* size(), col[i] for EVERY size_t i (outside the range: ""), the whole collection: the textbook answers *)
+Theorem C13_collection_observers_spec : forall c items q, CI c items -> kobs c q = Ok (t_kobs items q).
+Proof. exact kobs_ok. Qed.
+Print Assumptions C13_collection_observers_spec.
+
+(* EVERY history of steps on one collection *)
+Theorem C13_collection_history_spec : forall ops c items, CI c items -> forallb valid_cop ops = true ->
+  exists c' items' lg, krun c ops = Ok (c', lg) /\ CI c' items' /\ lg ++ t_snap items' = t_krun items ops.
+Proof. exact krun_ok. Qed.
+Print Assumptions C13_collection_history_spec.
+
+(* NOT the code: allocate() keeping an array that is big enough.  On a fresh collection it is the same function ... *)
+Theorem C13_collection_keep_array_unseen_when_fresh : forall a d, c_split_keep c_new a d = c_split c_new a d.
+Proof. exact collection_keep_array_fresh. Qed.
+Print Assumptions C13_collection_keep_array_unseen_when_fresh.
+
+(* ... on a collection that holds a longer result it is wrong ("a,b,c,d" then "x,y": size() stays 4, "c," and "d" survive) *)
+Theorem C13_collection_keep_array_refuted : ~ collection_keep_array_stmt.
+Proof. exact collection_keep_array_refuted. Qed.
+Print Assumptions C13_collection_keep_array_refuted.
+
+(* NOT the code: a scan that steps over the WHOLE delimiter while the token count comes from the overlapping count().  For delimiters
+   of at most one byte it is the code's loop ... *)
+Theorem C13_split_whole_delimiter_step_unseen_for_short_delimiters : forall c a d rd, (length d <= 1)%nat -> NN d ->
+  c_split_whole c a (d ++ 0 :: rd) = c_split c a (d ++ 0 :: rd).
+Proof. exact split_whole_delimiter_short. Qed.
+Print Assumptions C13_split_whole_delimiter_step_unseen_for_short_delimiters.
+
+(* ... for a delimiter that overlaps itself it reads NULL + length ("aaa" at "aa") *)
+Theorem C13_split_whole_delimiter_step_refuted : ~ split_whole_delimiter_stmt.
+Proof. exact split_whole_delimiter_refuted. Qed.
+Print Assumptions C13_split_whole_delimiter_step_refuted.
 
 (* the character predicates and ToLower of the model ARE the source: equal, on every char value, to the definitions that
    tools/cxx2coq.py regenerates from clang's AST of SimpleString.cpp on every run (gen/Gen_Leaf.v) *)
